@@ -77,6 +77,9 @@ func SolveAll(g *Gen, header string, results []*FnResult, outDir string, par int
 	}
 	var jobs []job
 	for _, r := range results {
+		if r.header == "" {
+			r.header = g.HeaderFor(r) // sequentially: HeaderFor touches shared generator state
+		}
 		for _, o := range r.Obls {
 			jobs = append(jobs, job{r, o})
 		}
